@@ -1701,7 +1701,7 @@ func init() {
 			"Enumeration is an odometer over table indexes, so cases are distinct; a case is non-trivial when the member's own code was reached (outcome is a value, or an error other than member-not-found / name-not-defined).",
 		Assumptions: []string{
 			"a Zn error of any kind is an acceptable outcome; only a Go panic, a nil Element on success (also inside a returned collection, or bound to a name that then reads as undefined), a hang or a dead worker are violations",
-			"arguments are distinct fresh values: aliasing (a collection inserted into itself) and cyclic structures are not covered; nil Elements are never passed as arguments",
+			"direct / guards / program seams: arguments are distinct fresh values; a collection put into itself (directly, inside a literal, through a second name) is covered by the source seam's histories; nil Elements are never passed as arguments",
 			"stdlib/http does not compile at this commit and is skipped; its classes (pkg/common) are exercised through Construct and NewObject, its argument guards through the guards seam",
 			"the file library only ever receives paths inside a per-worker scratch directory (directory, existing file, missing file, missing parent); the directory is removed at the end",
 			"objects, methods and types of the program seam come from a fixed prelude (class T with property P, method M, constructor; function F) because values of one interpreter instance cannot be passed to another; in the direct seam they are built with the Go API",
